@@ -17,6 +17,7 @@ THEOREMS = {
     "SpecKitV.Props.C04New": ["newPlan_monotone", "NewMono.newStep_mono", "NewMono.inv_step", "NewMono.newK_anti"],
     "SpecKitV.Props.C04Vec": ["vecGridPoint_mono", "vecGrid_mono", "vecGrid_pos", "vecPlan_monotone"],
     "SpecKitV.Props.SchedGen": ["gen_ltf_round_eq", "gen_ltf_walk_eq_model", "gen_new_walk_eq_model"],
+    "SpecKitV.Props.VecGen": ["Arr.memo_eq", "Np.logspace_get", "Np.searchsortedLeft_eq", "gen_vec_walk_eq_model", "gen_vec_walk_eq_plan"],
     "SpecKitV.Props.StartsGen": ["gen_ltf_starts_eq_model", "gen_ltf_starts_safe"],
     "SpecKitV.Props.Utils": ["gen_round_half_up_eq_model", "gen_round_half_up_eq_floor"],
 }
